@@ -47,7 +47,7 @@ $(B)/engine/%.o: $(VERIF)/engine/%.c $(HDRS)
 	@mkdir -p $(dir $@)
 	$(CC) $(CFLAGS) -c $< -o $@
 
-HHDRS := $(wildcard $(VERIF)/harness/*.inc $(VERIF)/harness/*.h)
+HHDRS := $(wildcard $(VERIF)/harness/*.inc $(VERIF)/harness/*.h $(VERIF)/harness/c15_blackbox_file.cc)
 $(B)/harness/%.o: $(VERIF)/harness/%.c $(HDRS) $(HHDRS)
 	@mkdir -p $(dir $@)
 	$(CC) $(CFLAGS) -c $< -o $@
@@ -60,8 +60,6 @@ DRIVER := $(B)/engine/driver.o
 LDLIBS := -lpthread -ldl -lrt
 
 # per-harness extra objects / link flags
-EXTRA_c07 :=
-LDX_c07 :=
 WRAP_RANDOM := -Wl,--wrap=random,--wrap=srandom,--wrap=rand,--wrap=srand
 EXTRA_c20 := wrap_random.o
 LDX_c20 := $(WRAP_RANDOM)
@@ -70,6 +68,16 @@ EXTRA_c01 := vsched.o
 LDX_c01 := $(WRAP_SCHED)
 EXTRA_c19c := vsched.o
 LDX_c19c := $(WRAP_SCHED)
+WRAP_CLOCK := -Wl,--wrap=clock_gettime
+WRAP_MMAP := -Wl,--wrap=mmap,--wrap=munmap
+EXTRA_c15 := wrap_clock.o wrap_mmap.o
+LDX_c15 := $(WRAP_CLOCK) $(WRAP_MMAP)
+EXTRA_c11b := wrap_clock.o wrap_mmap.o
+LDX_c11b := $(WRAP_CLOCK) $(WRAP_MMAP)
+EXTRA_c07 := wrap_mmap.o
+LDX_c07 := $(WRAP_MMAP)
+EXTRA_c11 := wrap_mmap.o
+LDX_c11 := $(WRAP_MMAP)
 EXTRA_c17 := wrap_random.o
 LDX_c17 := $(WRAP_RANDOM)
 EXTRA_c18 := wrap_random.o
